@@ -35,6 +35,7 @@ func runC16(c *core.Ctx, r *core.Reporter) {
 	c16total(c, r)
 	c16samekey(c, r)
 	c16widen(c, r)
+	c16flavorprec(c, r)
 }
 
 // hierarchyLiterals returns the symbol lists a Hierarchy() method can return.
